@@ -127,3 +127,27 @@ Proof. intros H. rewrite machine_refines_kernel. apply exec_at_due. exact H. Qed
 Corollary machine_time_monotone fuel n m :
   inv (kern_of m) -> StronglySorted (fun x y => xle (e_time x) (e_time y)) (mtrace n fuel m).
 Proof. intros H. rewrite machine_refines_kernel. apply time_monotone. exact H. Qed.
+
+(** ** run(): how it ends *)
+
+(** the first exception escaping a root activity is the outcome of the run, unchanged *)
+Lemma escape_is_result m c e :
+  finish_ctx m c [] (inr e) = SDone ((set_act m (c_aid c) ADead) <| result := RRaised e |>).
+Proof. reflexivity. Qed.
+
+(** a root activity's unreceived return value is reported as an error *)
+Lemma leak_reported m c v :
+  v <> VU -> finish_ctx m c [] (inl v) = SDone ((set_act m (c_aid c) ADead) <| result := RRaised EActivityLeak |>).
+Proof. intros H. destruct v; try reflexivity. congruence. Qed.
+
+(** once the run has ended (quiescent, or an exception escaped) nothing executes any more *)
+Lemma mrun_stops n fuel m : result m <> RGoing -> mrun (S n) fuel m = m.
+Proof. cbn. destruct (result m); congruence. Qed.
+
+(** the run ends normally exactly at quiescence: [mstep] reports [RQuiet] iff no unrevoked activation is queued *)
+Lemma mstep_quiet_iff (m : mstate) :
+  next (kern_of m) = None <-> Forall (fun b => is_revoked (revoked (kern_of m)) b = true) (queued (kern_of m)).
+Proof. apply next_none_iff_quiescent. Qed.
+
+Lemma mstep_quiet fuel m : next (kern_of m) = None -> mstep fuel m = m <| result := RQuiet |>.
+Proof. unfold mstep, kern_of. intros H. rewrite H. reflexivity. Qed.
